@@ -341,6 +341,36 @@ def oracle_empty():
         if abs(first - 0.0) > 1e-5 or abs(second - 2.0) > 1e-5:
             return ('suppfunc([1,1]) of {-1 <= x <= 0} is %r and, after re-defining the same SigDomain as {-1 <= x <= 1}, %r (expected 0 and 2)'
                     % (first, second))
+        # the documented two-step construction detects emptiness as well: X = SigDomain(n); X.parse_coniclifts_constraints(cons)
+        xt = cl.Variable(shape=(2,), name='twostep_x')
+        for label, cons_t in (('{x0 >= 1, x0 <= 0}', [xt[0] >= 1, xt[0] <= 0]),
+                              ('{e^x0 + e^x1 <= 1, x0 >= 0, x1 >= 0}', [cl.weighted_sum_exp(np.array([1.0, 1.0]), xt) <= 1, xt >= 0])):
+            Dt = SigDomain(2)
+            try:
+                Dt.parse_coniclifts_constraints(cons_t)
+                return 'SigDomain(2) followed by parse_coniclifts_constraints of the empty set %s did not report emptiness' % label
+            except RuntimeError:
+                pass
+        # solution recovery reads a domain, it does not redefine it: after sig_solrec the lists X.gts / X.eqs are what they were
+        from sageopt.relaxations import sig_solution_recovery as ssr
+        y3 = so.standard_sig_monomials(2)
+        f3 = y3[0] + y3[1] + 0.5 * y3[0] ** -1 * y3[1] ** -1
+        g3 = [4 - y3[0], 4 - y3[1], y3[0] + y3[1] - 1.5]          # the last one is not convexifiable (two positive terms)
+        X3 = ss.infer_domain(f3, g3, [])
+        n_g, n_e = len(X3.gts), len(X3.eqs)
+        pr3 = ss.sig_constrained_relaxation(f3, g3, [], X3, form='dual')
+        pr3.solve(verbose=False)
+        for _ in range(2):
+            try:
+                ssr.sig_solrec(pr3)
+            except Exception as e:
+                return 'sig_solrec on a solved constrained dual relaxation over an inferred X raised %r' % (e,)
+        if len(X3.gts) != n_g or len(X3.eqs) != n_e:
+            return ('after solution recovery the SigDomain lists %d inequality and %d equality functions (before: %d and %d): the functional '
+                    'description of X no longer matches its conic data' % (len(X3.gts), len(X3.eqs), n_g, n_e))
+        ptin = np.log(np.array([0.3, 0.4]))          # in X (both <= 4) although y0 + y1 < 1.5, which is not a constraint OF X
+        if not X3.check_membership(ptin, 1e-8):
+            return 'after solution recovery check_membership rejects log(0.3, 0.4), which satisfies the conic data of X'
         # a user-specified SigDomain with a nonlinear (exponential) constraint, where an unrelated Variable is created between writing the
         # constraints and constructing the domain: the three views still describe {x : e^x0 + e^x1 <= 2}
         xe = cl.Variable(shape=(2,), name='userdom_x')
